@@ -30,7 +30,8 @@ from .. import fieldtable
 from .. import fingerprint as fp
 from .. import obs_models as om
 
-TEMPS = [1.0, 0.5, 2.0]           # index 0 = constructor default
+TEMPS = [1.0, 0.5, 2.0, 2.56]     # index 0 = constructor default; the others are what an annealing schedule sets
+CTOR_TEMPS = [None, 1, 5, 2.0, 1.0]   # MPS constructor argument as users write it: Python ints as well as floats
 SAMPLERS = ['sample_alpha_sm', 'sample_alpha_gs', 'sample_alpha_none']
 OBSERVER_CALLS = ['summary', 'str', 'export', 'cost', 'get_cost']
 OPTIONS = {'pit': ['discrete_cost', 'train_features'],
@@ -45,7 +46,7 @@ def gen_history(rng, method, n_train=None):
     ops = [('train', rng.randrange(1 << 16)) for _ in range(n_train)]
     for _ in range(rng.randint(0, 3)):
         name = rng.choice(OPTIONS[method])
-        val = rng.randrange(1, 3) if name == 'temperature' else rng.random() < 0.7
+        val = rng.randrange(1, len(TEMPS)) if name == 'temperature' else rng.random() < 0.7
         ops.append(('opt', name, val))
     for _ in range(rng.randint(0, 2)):
         ops.append(('mode', rng.randrange(2)))
@@ -387,7 +388,16 @@ def run_case(item):
     for proto in ('R', 'L'):
         v, _, status = resume(spec, history, sd, proto, final_training, fresh_obs=fresh_obs)
         diff, _ = table_fields_diff(w, v)
-        variants[proto] = {'w': v, 'status': status, 'diff': diff}
+        # the state_dict right after loading IS the checkpoint: same keys, dtype, shape, bits (`load_state_dict`
+        # copies with copy_(), which silently casts to the dtype of the destination)
+        sv = v.state_dict()
+        bad = []
+        for k in sorted(sd):
+            if k in sv and (sv[k].dtype != sd[k].dtype or sv[k].shape != sd[k].shape or fp.thash(sv[k]) != fp.thash(sd[k])):
+                bad.append((k, '%s %s %s -> %s %s %s' % (str(sd[k].dtype).replace('torch.', ''), tuple(sd[k].shape),
+                                                          _short(sd[k]), str(sv[k].dtype).replace('torch.', ''),
+                                                          tuple(sv[k].shape), _short(sv[k]))))
+        variants[proto] = {'w': v, 'status': status, 'diff': diff, 'ckpt_bad': bad}
         if proto == 'L':
             variants[proto]['attrdiff'] = simple_attr_diff(w, v)
     o = observe(w, spec, shape, seed)
@@ -399,7 +409,18 @@ def run_case(item):
         V['rec_eq'] = o['rec'] == ov['rec']
         V['state_eq'] = o['state'] == ov['state']
         res['real'][proto] = {'status': V['status'], 'diff': V['diff'], 'rec_eq': V['rec_eq'],
-                              'state_eq': V['state_eq'], 'obs_eq': not V['obsdiff']}
+                              'state_eq': V['state_eq'], 'obs_eq': not V['obsdiff'], 'ckpt_eq': not V['ckpt_bad']}
+        if V['ckpt_bad'] and V['status'] == 'ok':
+            k, d = V['ckpt_bad'][0]
+            path, fld = k.rsplit('.', 1)
+            owner = owner_class(w.get_submodule(path), fld)
+            res['violations'].append({'key': 'C17:state_dict-entry-not-restored:%s.%s' % (owner, fld),
+                                      'what': 'after a clean strict load (%s) the resumed wrapper does not hold the '
+                                              'checkpointed value of %s: %s%s'
+                                              % ('protocol R' if proto == 'R' else 'constructor arguments only', k, d,
+                                                 '; observations differ: %s' % V['obsdiff'][0][1] if V['obsdiff'] else ''),
+                                      'case': dict({'kind': 'resume', 'spec': spec, 'history': [list(op) for op in history],
+                                                    'obs_seed': seed, 'fresh_obs': fresh_obs}, proto=proto)})
     case = {'kind': 'resume', 'spec': spec, 'history': [list(op) for op in history], 'obs_seed': seed,
             'fresh_obs': fresh_obs}
     # ---- oracle, protocol R: the property as stated
@@ -430,6 +451,8 @@ def run_case(item):
     elif L['status'] != 'ok':
         res['violations'].append({'key': 'C17:resume-differs:%s:keys-literal' % method,
                                   'what': 'strict load (literal reading): ' + L['status'], 'case': dict(case, proto='L')})
+    elif L['obsdiff'] and L['ckpt_bad']:
+        pass        # explained and reported above: a state_dict entry was not restored
     elif L['obsdiff']:
         groups = {}
         for (path, attr), val in L['attrdiff'].items():
@@ -466,6 +489,11 @@ def run_case(item):
                                           'case': dict(case, proto='L', attr=g)})
             res['real']['L']['needed'] = needed
     return res
+
+
+def _short(t):
+    t = t.detach().flatten()
+    return repr(t[:3].tolist()) if t.numel() else '[]'
 
 
 def _frozen_values(w):
@@ -628,6 +656,12 @@ def _run(chk):
             add(spec, [('init', 1), ('train', 2), ('opt', 'hard', not spec['hard']), ('train', 3)])
             spec = om.random_spec(rng, kind)
             add(spec, [('init', 1), ('opt', 'gumbel', not spec['gumbel']), ('train', 2), ('opt', 'temperature', 2), ('mode', 1)])
+            # temperature annealing: constructor temperature written as a Python int, annealed to a non-integer value
+            # before the checkpoint, observed in training mode with soft sampling
+            for t0 in (5, 1):
+                spec = om.random_spec(rng, kind, hard=False, gumbel=False, temperature=t0)
+                add(spec, [('init', 1), ('mode', 1), ('train', 2), ('opt', 'temperature', 3), ('train', 3),
+                           ('opt', 'temperature', 1 if t0 == 1 else 3), ('train', 4)])
         else:
             spec = om.random_spec(rng, kind, hard=False)
             add(spec, [('init', 1), ('opt', 'temperature', 1), ('train', 2), ('train', 4)])
@@ -640,7 +674,8 @@ def _run(chk):
                                         ('obs', 'str'), ('obs', 'get_cost')], fresh_obs=[])
         add(om.random_spec(rng, kind), [('init', 1), ('train', 2), ('train', 3)], fresh_obs=['summary', 'export', 'cost'])
         for j in range(n_hist):
-            add(om.random_spec(rng, kind), gen_history(rng, method))
+            force = {'temperature': rng.choice(CTOR_TEMPS)} if method == 'mps' else {}
+            add(om.random_spec(rng, kind, **force), gen_history(rng, method))
     tv_items = [{'spec': om.random_spec(rng, kind)} for kind in om.KINDS for _ in range(1 if chk.quick else 4)]
     results = common.pmap(run_case, items)
     tvs = common.pmap(table_vs_runtime, tv_items)
@@ -687,17 +722,18 @@ def _run(chk):
             ans = _sorted_diff(ans)
             real = r['real'][proto]
             keys = 'ok' if real['status'] == 'ok' and r['real']['keys_equal_fresh'] else 'bad'
+            b = lambda x: 'eq' if x else 'ne'
             if proto == 'R':
-                b = lambda x: 'eq' if x else 'ne'
-                rs = 'keys=%s diff=[%s] rec=%s pers=%s obs=%s' % (keys, ','.join(real['diff']), b(real['rec_eq']),
-                                                                  b(real['state_eq']), b(real['obs_eq']))
+                rs = 'keys=%s ckpt=%s diff=[%s] rec=%s pers=%s obs=%s' % (keys, b(real['ckpt_eq']), ','.join(real['diff']),
+                                                                          b(real['rec_eq']), b(real['state_eq']),
+                                                                          b(real['obs_eq']))
                 chk.corr({'spec': it['spec'], 'history': it['history'], 'fresh_obs': it['fresh_obs'], 'proto': 'R'}, rs, ans,
                          'fields differing after load / equality after one forward, protocol R')
             else:
                 # after the forward the literal resume may or may not differ (mode, hardening); the
                 # model's claim is one-sided: a real difference must be predicted
                 pre = ans.split(' rec=')[0]
-                rs = 'keys=%s diff=[%s]' % (keys, ','.join(real['diff']))
+                rs = 'keys=%s ckpt=%s diff=[%s]' % (keys, b(real['ckpt_eq']), ','.join(real['diff']))
                 chk.corr({'spec': it['spec'], 'history': it['history'], 'fresh_obs': it['fresh_obs'], 'proto': 'L'}, rs, pre,
                          'fields differing after load, literal reading')
                 if not real['obs_eq'] and ans.endswith('obs=eq'):
